@@ -685,7 +685,11 @@ class URL:
                 new_path_parts = base_path_parts + list(dest.path_parts)
         else:
             new_path_parts = list(self.path_parts)
-            if not query_params:
+            # RFC 3986 5.2.2: only a reference without a "?" inherits
+            # the base query, a bare "?" means an empty query
+            if not query_params and not (
+                    isinstance(orig_dest, str)
+                    and parse_url(orig_dest)['query'] is not None):
                 query_params = self.query_params
 
         ret = self.from_parts(scheme=dest.scheme or self.scheme,
